@@ -60,6 +60,7 @@ func init() {
 			ruleCloseOnce(c, "C14.8")
 			ruleCloseSafety(c, "C14.9")
 			ruleLocalFailureNotifiesPeer(c, "C14.10")
+			ruleInvokeAborts(c, "C14.11")
 		},
 		Explain:    "Static necessary conditions of 'nothing left behind': every go statement falls in a verified termination class (straight-line sender, context watcher whose context is cancelled on every finishing path, receive loop, dispatch with deferred finish); every table insert has its delete on every finishing path (both ends) and on first-send failure; stream contexts are cancelled on every finishing path; cancel empties the queue; no run-time writes to package-level state; registry add/deferred-remove pairing.",
 		Assume:     []string{"handlers return when their context is cancelled and their blocking operations are released (C04.4)"},
